@@ -57,7 +57,15 @@ func htmlEscape(s string) string {
 	return b.String()
 }
 
+var namedAtoms = map[string]string{
+	"NL": "\n", "CR": "\r", "TAB": "\t", "EACUTE": "\u00e9", "EURO": "\u20ac", "CJK": "\u4f60", "EMOJI": "\U0001F600",
+	"FFFD": "\ufffd", "BAD": "\xff", "EACUTE_UP": "\u00c9",
+}
+
 func atomText(a string) string {
+	if s, ok := namedAtoms[a]; ok {
+		return s
+	}
 	switch {
 	case len(a) == 2 && a[0] == 'M':
 		return markerText(a[1:], 0)
